@@ -17,10 +17,12 @@ def main():
     checks = []
     na = []
     served = []
+    import subprocess
+    tracked = set(subprocess.check_output(["git", "-C", HERE, "ls-files", "vrules/props"], text=True).split())
     for p in props:
         pid = p["id"]
         path = os.path.join(HERE, "vrules", "props", pid.lower() + ".py")
-        if not os.path.exists(path) or pid in na_reasons:
+        if not os.path.exists(path) or pid in na_reasons or ("vrules/props/%s.py" % pid.lower()) not in tracked:
             na.append({"property_id": pid,
                        "reason": na_reasons.get(pid, "no static rule implemented yet for this property; not claimed")})
             continue
